@@ -344,6 +344,15 @@ class FullFrontend(ConstrainedFrontend):
         solver = self._get_solver()
         self._solver_backend.satisfiable(extra_constraints=extra_constraints, solver=solver)
         unsat_core = self._solver_backend.unsat_core(solver)
+        own = {c.hash() for c in self.constraints}
+        if any(c.hash() not in own for c in unsat_core):
+            # the backend maps its assertions back to expressions through a cache shared by all solvers, so an
+            # equivalent constraint of another solver (e.g. one with other annotations) may come back instead of ours
+            convert = self._solver_backend.convert
+            mine = {}
+            for c in self.constraints:
+                mine.setdefault(convert(c), c)
+            unsat_core = [c if c.hash() in own else mine.get(convert(c), c) for c in unsat_core]
         if len(unsat_core) == 0:
             # the backend could not name a core (Z3 reports none for an inherited assertion whose body is false):
             # fall back to a correct, if not minimal, answer
